@@ -122,7 +122,7 @@ Qed.
 
 (* processing a flush event flushes the sinks and writes nothing *)
 Lemma flush_event_flushes s e : ekind e = KFlush ->
-  obs (process_event K s e) = obs s ++ flat_map (fun k => [O_FLUSH; N.of_nat k]) (active_sinks s (nloggers s) 0 []).
+  obs (process_event K s e) = obs s ++ flat_map (flush_tokens s) (active_sinks s (nloggers s) 0 []).
 Proof. intro Hk. unfold process_event. rewrite Hk. reflexivity. Qed.
 End Flush.
 
